@@ -3,6 +3,7 @@ package setec
 import (
 	"context"
 	"encoding/json"
+	"os"
 	"reflect"
 	"time"
 
@@ -490,3 +491,75 @@ func verifHarnessC10NewStoreStructs() {
 	assert("struct-field-populated", bytesEq(*fieldA, s.active.m["tagged/a"].Secret.Value))
 	reach("end-ok")
 }
+
+// The back-off between rounds doubles from 1ms and is capped at 4096ms (concrete 14-round run, one declared secret that never arrives).
+func verifHarnessC10Backoff() {
+	verifEnvReset()
+	client := &verifInitClient{svc: map[string]*api.SecretValue{}, maxFails: 14}
+	ctx := &verifCtx{tag: "init"}
+	s, err := NewStore(ctx, StoreConfig{Client: client, Secrets: []string{"never"}, PollInterval: -1, Logf: verifLogf, TimeNow: verifTimeNow})
+	assert("gives-up-with-error-when-context-ends", and(s == nil, err != nil))
+	assert("fourteen-pauses", len(verifSleeps) == 14)
+	for k, d := range verifSleeps {
+		assert("backoff-capped-doubling", d == verifExpectedBackoff(k))
+		assert("never-more-than-a-few-seconds", d <= 4096*time.Millisecond)
+	}
+	assert("no-request-after-giving-up", len(client.names) == 15)
+	reach("end")
+}
+
+// Close stops the poller and waits for it; handles keep working afterwards.
+func verifHarnessC12Close() {
+	verifEnvReset()
+	client := &verifClient{}
+	s := verifSymStore(param("names"), client, nil)
+	assume(verifStoreInv(s))
+	s.active.f = map[string]Secret{}
+	name := nondetString("name")
+	assume(mapHas(s.active.m, name))
+	h := s.Secret(name)
+	want := append([]byte(nil), s.active.m[name].Secret.Value...)
+	done := make(chan struct{})
+	close(done)
+	s.done = done
+	cancelled := false
+	s.cancel = func() { cancelled = true }
+	err := s.Close()
+	assert("close-ok", and(err == nil, cancelled))
+	assert("handle-still-serves-after-close", bytesEq(h.Get(), want))
+	assert("no-request", client.requests == 0)
+	reach("end")
+}
+
+// NewFileCache: directory created owner-only; a non-regular path is refused.
+func verifHarnessC13NewFileCache() {
+	verifEnvReset()
+	verifFSReset()
+	verifMkdirs = nil
+	path := "/cache/dir/secrets.json"
+	kind := nondetChoice("existing", 3)
+	switch kind {
+	case 1:
+		verifFS.files[path] = &verifInode{mode: 0600, complete: true}
+	case 2:
+		verifFS.files[path] = &verifInode{dir: true}
+	}
+	fc, err := NewFileCache(path)
+	if kind == 2 {
+		assert("non-regular-path-refused", err != nil)
+		reach("end-refused")
+		return
+	}
+	assert("accepted", and(err == nil, string(fc) == path))
+	assert("directory-owner-only", and(len(verifMkdirs) == 1, verifMkdirs[0] == 0700))
+	reach("end")
+}
+
+var verifMkdirs []os.FileMode
+
+func verifStubMkdirAll(p string, perm os.FileMode) error {
+	verifMkdirs = append(verifMkdirs, perm)
+	return nil
+}
+
+func verifStubLstat(name string) (os.FileInfo, error) { return verifStubStat(name) }
